@@ -51,7 +51,7 @@ func zvC25LeakRun(hist []string, trace bool) (leaked []string, x *vsched.Executi
 				continue
 			}
 			switch e {
-			case evOpen, evOpenBad, evKA, evUpd1, evUpd2, evNotif, evNotif1, evGarbage, evWFail:
+			case evOpen, evOpenBad, evKA, evUpd1, evUpd2, evNotif, evNotif1, evNotifVer, evNotifBad, evGarbage, evWFail:
 				if s.cA == nil || s.cA.isClosed() {
 					continue // nothing to receive on (e.g. all dial attempts were refused)
 				}
@@ -103,7 +103,7 @@ func zvC25LeakHistories(thorough bool) [][]string {
 		{evT15, evOpen, evKA, evUpd1},   // Established with a route
 		{evDialFail, evT15, evT15},      // connect attempts that fail
 	}
-	ends := [][]string{nil, {evNotif}, {evNotif1}, {evGarbage}, {evT4}, {evStop}, {evWFail, evT1, evT1}, {evPeerEOF}, {evUpd2, evNotif}}
+	ends := [][]string{nil, {evNotif}, {evNotif1}, {evNotifVer}, {evNotifBad}, {evGarbage}, {evT4}, {evStop}, {evWFail, evT1, evT1}, {evPeerEOF}, {evUpd2, evNotif}}
 	if thorough {
 		ends = append(ends, []string{evNotif, evT15, evOpen, evKA}, []string{evT4, evT15, evOpen}, []string{evStop, evT15}, []string{evPeerEOF, evT15, evOpen, evKA, evNotif})
 	}
